@@ -3,6 +3,7 @@ import AquaVerif.Drv.RainPartition
 import AquaVerif.Drv.RootZone
 import AquaVerif.Drv.WaterStress
 import AquaVerif.Drv.Drainage
+import AquaVerif.Drv.SoilEvaporation
 import AquaVerif.Drv.Calendar
 import AquaVerif.Drv.Clock
 import AquaVerif.Drv.PreIrrigation
@@ -32,6 +33,8 @@ def handlers : List (String × Handler) := [
   ("capillary_rise", hCapillaryRise),
   ("groundwater_inflow", hGroundwaterInflow),
   ("pre_irrigation", hPreIrrigation),
+  ("soil_evaporation", hSoilEvaporation),
+  ("evap_layer_water_content", hEvapLayer),
   ("clock", hClock),
   ("clock_calls", hClockCalls),
   ("calendar", hCalendar),
